@@ -47,6 +47,7 @@ var c18Exprs = []string{
 	"a == 1", "a == 2", "a == 3", "a == 42", "a == 0", "a == `a`", "a == ``", "a is empty", "a != 1", "ja == 2", "A == 1", "m.c == 1", "m.c != 1", "m.b == 1", "m.c is empty",
 	"any m as k, v { v == 1 }", "all m as k { k != `b` }", "w.x == 1", "w == 1", "`x` in w", "a == 1 or zz == 0", "not (a == 42)", "l.0 == 1", "any l as x { x == 42 }", "zz matches `a`",
 	"w.c == 1", "w.c != 1", "w.c is empty", "any l as x { x == 1 }", "all l as i, x { x == 1 or x == 42 }", "any w as k, v { v == 1 }", "l.0.c == 1",
+	"any a as x { x == 1 }", "all a as x { x == 1 }", "all zz as x { x == 1 }", "any m.c as k { k == `a` }",
 }
 
 func c18Docs() []*Node {
@@ -260,5 +261,9 @@ func c18ASTs() []any {
 		&Quant{All: true, Sel: []string{"l"}, Mode: BindBoth, Idx: "i", Val: "x", Body: &Bin{Or: true, L: m(OpEq, "1", "x"), R: m(OpEq, "42", "x")}},
 		&Quant{All: false, Sel: []string{"w"}, Mode: BindBoth, Idx: "k", Val: "v", Body: m(OpEq, "1", "v")},
 		m(OpEq, "1", "l", "0", "c"),
+		&Quant{All: false, Sel: []string{"a"}, Mode: BindDefault, Val: "x", Body: m(OpEq, "1", "x")},
+		&Quant{All: true, Sel: []string{"a"}, Mode: BindDefault, Val: "x", Body: m(OpEq, "1", "x")},
+		&Quant{All: true, Sel: []string{"zz"}, Mode: BindDefault, Val: "x", Body: m(OpEq, "1", "x")},
+		&Quant{All: false, Sel: []string{"m", "c"}, Mode: BindDefault, Val: "k", Body: m(OpEq, "a", "k")},
 	}
 }
